@@ -80,7 +80,9 @@ func kitsFor(t vt.TB, k optKey) []*bk.Kit {
 }
 
 var histTags = []string{"gsd_histogram:1_5_10", "gsd_histogram:", "gsd_histogram:incorrect", "gsd_histogram:10__20_50", "gsd_histogram:5_5_1", "gsd_histogram:inf_-inf_1",
-	"gsd_histogram:nan_1", "gsd_histogram:-10_0_2.5", "gsd_histogram:1e400_2", "gsd_histogram:_", "gsd_histogram:+Inf"}
+	"gsd_histogram:nan_1", "gsd_histogram:-10_0_2.5", "gsd_histogram:1e400_2", "gsd_histogram:_", "gsd_histogram:+Inf",
+	// wide histograms: more buckets than a plain timer has sub-metrics
+	"gsd_histogram:1_2_3_4_5_6_7_8_9_10_11_12_13_14", "gsd_histogram:-5_-4_-3_-2_-1_0_1_2_3_4_5_6_7_8_9_10_20_30_40_50_60_70_80_90_100_200_300_400_500_1000"}
 
 var specialValues = []float64{0, 1, -1, 2.5, 1e300, -1e300, math.Inf(1), math.Inf(-1), math.MaxFloat64, 5e-324, 1e-9, 42, 42, 42}
 
@@ -146,7 +148,7 @@ func TestFlushNeverCrashes(t *testing.T) {
 			neg = neg || p < 0
 		}
 		limit := rapid.SampledFrom([]uint32{0, 1, 2, 5, math.MaxUint32}).Draw(t, "histogram-limit")
-		ok := optKey{batch: rapid.SampledFrom([]int{1, 7, 40, 1000}).Draw(t, "batch"), compress: rapid.Bool().Draw(t, "compress"), mask: rapid.IntRange(0, len(masks)-1).Draw(t, "mask")}
+		ok := optKey{batch: rapid.SampledFrom([]int{1, 7, 21, 40, 1000}).Draw(t, "batch"), compress: rapid.Bool().Draw(t, "compress"), mask: rapid.IntRange(0, len(masks)-1).Draw(t, "mask")}
 		ks := kitsFor(t, ok)
 		agg := statsd.NewMetricAggregator(pcts, 0, 0, 0, 0, masks[ok.mask], limit)
 		pool := rapid.SliceOfN(seriesGen(), 1, 5).Draw(t, "series")
